@@ -1,5 +1,7 @@
 """Driver configuration and manifest text for C02 (see DESIGN.md)."""
 
+RULE_ADD = ' Later additions: any protocol error code for fatal faults; the hook-gated parked-flush template in one case out of eight.'
+
 CHECK = {'pkg': '.',
  'sim': True,
  'parts': [{'name': 'main', 'test': 'TestVF_C02', 'quick': {'shards': 8, 'checks': 200}, 'thorough': {'shards': 16, 'checks': 12000}}],
